@@ -258,6 +258,9 @@ func errClass(msg string) string {
 		return "err:symbolschema"
 	case strings.Contains(m, "unexpected data type"):
 		return "err:type"
+	case strings.Contains(m, " items but ") && strings.Contains(m, " categories"):
+		// AddTimeBucket's key check; the message quotes the key, which may contain any word
+		return "err:other"
 	case strings.Contains(m, "timeframe"):
 		return "err:timeframe"
 	case strings.Contains(m, "removal of catalog entry failed"), strings.Contains(m, "unable to get info"):
